@@ -111,7 +111,12 @@ def targets(ctx):
                 except Exception as e:  # noqa: BLE001
                     out.append((f"{what}_name_raises", type(e).__name__, f"{r!r}: {e}"))
         py = results.get("field")
-        if py is not None and valid(py) and py not in ("zz_other", "aa_first"):
+        # the attribute names to probe: the one the plugin would generate and - hand-written classes copy proto names as
+        # they are (userID, retry__count) - the proto name itself where it is a usable Python attribute name
+        attr_names = [("", py)] if py is not None and valid(py) and py not in ("zz_other", "aa_first") else []
+        if valid(n) and n != py and n not in ("zz_other", "aa_first") and not (n.startswith("__") and n.endswith("__")) and not n.startswith("_"):
+            attr_names.append(("handwritten_", n))
+        for mode, py in attr_names:
             try:
                 cls = msg_class(py)
                 m = cls(**{py: 7})
@@ -119,27 +124,27 @@ def targets(ctx):
                     d = m.to_dict(casing)
                     keys = [k for k in d if k not in ("zzOther", "zz_other", "aaFirst", "aa_first")]
                     if len(keys) != 1:
-                        out.append(("to_dict_key_missing", casing_name, f"{n!r}: field {py!r} -> dict {d!r}"))
+                        out.append((mode + "to_dict_key_missing", casing_name, f"{n!r}: field {py!r} -> dict {d!r}"))
                         continue
                     key = keys[0]
                     back = cls.from_dict({key: 7})
                     if getattr(back, py) != 7:
-                        out.append(("json_key_not_mapped_back", casing_name, f"proto name {n!r}: field {py!r} -> key {key!r} -> dropped by from_dict"))
+                        out.append((mode + "json_key_not_mapped_back", casing_name, f"proto name {n!r}: field {py!r} -> key {key!r} -> dropped by from_dict"))
                     back2 = cls().from_json(m.to_json(casing=casing))
                     if getattr(back2, py) != 7:
-                        out.append(("json_text_roundtrip_drops_field", casing_name, f"{n!r}: field {py!r} key {key!r}"))
+                        out.append((mode + "json_text_roundtrip_drops_field", casing_name, f"{n!r}: field {py!r} key {key!r}"))
                     # the python-dict twins of to_dict / from_dict use the same key mapping
                     pd = m.to_pydict(casing)
                     if key not in pd:
-                        out.append(("to_pydict_key_differs", casing_name, f"{n!r}: to_dict key {key!r}, to_pydict keys {sorted(pd)}"))
+                        out.append((mode + "to_pydict_key_differs", casing_name, f"{n!r}: to_dict key {key!r}, to_pydict keys {sorted(pd)}"))
                     back3 = cls().from_pydict(pd)
                     if getattr(back3, py) != 7:
-                        out.append(("pydict_key_not_mapped_back", casing_name, f"proto name {n!r}: field {py!r} -> from_pydict(to_pydict()) drops it (keys {sorted(pd)})"))
+                        out.append((mode + "pydict_key_not_mapped_back", casing_name, f"proto name {n!r}: field {py!r} -> from_pydict(to_pydict()) drops it (keys {sorted(pd)})"))
                 back = cls().from_dict({n: 7})
                 if getattr(back, py) != 7:
-                    out.append(("proto_name_not_mapped", "-", f"from_dict({{{n!r}: 7}}) does not set field {py!r}"))
+                    out.append((mode + "proto_name_not_mapped", "-", f"from_dict({{{n!r}: 7}}) does not set field {py!r}"))
             except Exception as e:  # noqa: BLE001
-                out.append(("message_with_field_raises", type(e).__name__, f"{n!r} -> field {py!r}: {e}"))
+                out.append((mode + "message_with_field_raises", type(e).__name__, f"{n!r} -> field {py!r}: {e}"))
         return out
 
     # ---- sibling fields: two fields of ONE message whose names are related (one is the other's JSON key, the other
